@@ -186,7 +186,10 @@ def r10_9(ctx):
             if "utf8" not in ret and "Utf8(" not in ret:
                 bad = "UTF-8 is decoded with %s" % ret[:60]
         elif not re.search(r"EncodingRs\(p1\.new_decoder\(\),p2\)", ret):
-            bad = "encoding other than UTF-8: builds %s, not EncodingRs(encoding.new_decoder(), sink)" % ret[:80]
+            # ... or hands exactly that decoder to the sibling constructor (which keeps it, see above)
+            deleg = [tuple(str(x) for x in args) for a, args in pc["actions"] if a in ("call Self::new_from_encoding_rs_decoder", "call new_from_encoding_rs_decoder")]
+            if deleg != [("p1.new_decoder()", "p2")]:
+                bad = "encoding other than UTF-8: builds %s%s, not EncodingRs(encoding.new_decoder(), sink): another decoder (e.g. one with BOM removal instead of BOM sniffing) does not decode like the one-shot decode of that encoding" % (ret[:60], deleg[:1] or "")
     ctx.ob("R10.9", "constructor-uses-the-encodings-decoder", bad is None and n >= 2, bad or "UTF-8 -> Utf8LossyDecoder; any other encoding -> its new_decoder()", "tendril stream LossyDecoder::new_encoding_rs")
 
 
